@@ -79,7 +79,8 @@ struct Run {
     if (!gen_chain(t, r, o, c, g, meta, desc)) return false;
     hs = want_hs ? 1 : 0; if (hs) r.label("half rate");
     { double acc = 0; for (size_t l = 0; l < c.links.size(); l++) { tstart.push_back(acc); acc += (double)g.len[l] / (double)c.links[l].rate; } duration = acc; }
-    for (size_t l = 0; l < c.links.size(); l++) { bool fin = true; for (auto &chv : g.pcm[l]) for (float x : chv) if (!(fabsf(x) < 1e18f)) fin = false; link_finite.push_back(fin); if (!fin) all_finite = false; if (!fin) r.label("link whose decode is not finite (synthetic)"); }
+    for (size_t l = 0; l < c.links.size(); l++) { bool fin = true; for (auto &chv : g.pcm[l]) for (float x : chv) if (!(fabsf(x) < 1e18f)) fin = false; if (!g.tail_sane[l]) fin = false;   // lapping at the end of a link reaches into the decoder's unfinished half block
+      link_finite.push_back(fin); if (!fin) all_finite = false; if (!fin) r.label("link whose decode is not finite (synthetic)"); }
     if (!reopen()) return false;
     r.label(sfmt("links=%zu", c.links.size()));
     int nops = 1 + (int)t.below(10);
